@@ -369,7 +369,8 @@ def ra6Q : Rat := 2215608465608465608 / 100000000000000000000
 
 def ofRat0 (q : Rat) (dflt : α) : α := if q = 0 then dflt else ofRat q
 
-def deriveConstants (sr : SR α) : Except Err (SR α) := do
+/-- everything of `DeriveConstants` before the datum object is attached -/
+def deriveCore (sr : SR α) : SR α :=
   let sr : SR α :=
     if sr.datumCode ≠ [] && sr.datumCode ≠ s "none" then
       match List.lookup (String.ofList sr.datumCode) datumTable with
@@ -400,12 +401,18 @@ def deriveConstants (sr : SR α) : Except Err (SR α) := do
     else sr
   let sr : SR α := { sr with ep2 := div (sub sr.a2 sr.b2) sr.b2 }
   let sr : SR α := if isNaN sr.k0 then { sr with k0 := ofRat 1 } else sr
-  let sr : SR α := if sr.axis = [] then { sr with axis := s "enu" } else sr
+  if sr.axis = [] then { sr with axis := s "enu" } else sr
+
+/-- `if json.datum == nil { json.datum = json.getDatum() }` -/
+def attachDatum (sr : SR α) : Except Err (SR α) :=
   match sr.datum with
-  | some _ => pure sr
+  | some _ => .ok sr
   | none =>
-    let (d, ps) ← getDatum sr
-    pure { sr with datum := some d, datumParams := ps }
+    match getDatum sr with
+    | .error e => .error e
+    | .ok (d, ps) => .ok { sr with datum := some d, datumParams := ps }
+
+def deriveConstants (sr : SR α) : Except Err (SR α) := attachDatum (deriveCore sr)
 
 /-! ## wkt.go -/
 
@@ -693,6 +700,14 @@ def equalSR (close : α → α → Bool) (p q : SR α) : Option Bool :=
       && feq close p.es q.es && feq close p.e q.e && feq close p.ep2 q.ep2 && p.datumName = q.datumName
       && p.noDefs = q.noDefs && datumEq close d1 d2 && p.czech = q.czech)
   | _, _ => none
+
+/-! ## encoding/shp/shp.go: (*Decoder).SR -/
+
+/-- `Decoder.SR`: `ioutil.ReadFile(name + ".prj")` (`none` = the read failed) then `proj.Parse(string(b))` -/
+def decoderSR (prjFile : Option Str) : Except Err (SR α) :=
+  match prjFile with
+  | none => .error (.error "ReadFile")
+  | some b => parse b
 
 /-- `NewTransform` returns the nil transformer (decision only) -/
 def newTransformIsNil (close : α → α → Bool) (src dst : SR α) : Option Bool := equalSR close src dst
